@@ -15,7 +15,7 @@ Proof.
     destruct (o_kind o); simpl; unfold emit; rewrite Hc; auto.
   - unfold exec_return. destruct (find_op t (s_ops st)) as [o|]; simpl; auto.
     destruct (o_kind o); simpl; unfold emit; rewrite Hc; simpl; auto.
-    destruct (o_cancelled o); simpl; auto.
+    destruct (o_cancelled o && negb again); simpl; auto.
   - destruct pr; simpl; auto. destruct (s_timer st); simpl; auto. unfold do_close. rewrite Hc. simpl. auto.
   - rewrite andb_false_r. auto.
 Qed.
@@ -161,7 +161,7 @@ Proof.
     + destruct (o_kind o) eqn:K.
       * destruct (o_cancelled o) eqn:C.
         -- destruct r; try discriminate. unfold emit. rewrite Hc. unfold mon_step. simpl.
-           done_open. split; auto. intros j. rewrite Hact. unfold active, set_ops; simpl.
+           destruct again; simpl; (done_open; split; auto). intros j. rewrite Hact. unfold active, set_ops; simpl.
            rewrite (active_remove_cancelled _ _ _ j W1 F C). reflexivity.
         -- destruct r; try discriminate; unfold emit; rewrite Hc; unfold mon_step; simpl.
            ++ done_open. split; auto.
@@ -273,7 +273,7 @@ Proof.
     + destruct (o_kind o) eqn:K.
       * destruct (o_cancelled o) eqn:C.
         -- destruct r; try discriminate. unfold emit. rewrite Hc. unfold mon_step. simpl.
-           done_open. split; auto. intros j. unfold active at 1. unfold set_ops; simpl.
+           destruct again; simpl; (done_open; split; auto). intros j. unfold active at 1. unfold set_ops; simpl.
            rewrite (active_remove_cancelled _ _ _ j W1 F C). apply Hact.
         -- destruct r; try discriminate; unfold emit; rewrite Hc; unfold mon_step; simpl.
            ++ done_open. split; auto.
